@@ -206,6 +206,8 @@ func SignHashed(rand io.Reader, priv, e []byte) (r, s []byte, err error) {
 
 		x := kG.GetAffineX() // 避免计算y坐标，可以节约计算量。x不需要保密，但z的数值会泄露k的信息，因此使用常数时间版本
 
+		verifDeclassify(x) // verification hook, no-op unless built with -tags verif
+
 		eInt.SetBytes(e)
 		rInt.Add(x, &eInt)
 		rInt.Mod(&rInt, n)
